@@ -866,4 +866,6 @@ def replay(ctx, obj):
         print('VIOLATION-REPRODUCED', v['what'])
     for d in rep.disagreements:
         print('DISAGREEMENT-REPRODUCED', d['what'])
+    if not rep.violations and not rep.disagreements:
+        print('not reproduced on the current working tree')
     return 1 if rep.violations or rep.disagreements else 0
